@@ -1,4 +1,5 @@
 import Rio.Proofs.HashOrder
+import Rio.Generated.Facts
 /-!
 # C01 — WareID is a pure function of fileset content
 
@@ -21,6 +22,40 @@ theorem C01_order (H : Bytes → Bytes) (l₁ l₂ : List Record) (hp : l₁.Per
   rw [bucketLines_nodup l₁ hn, bucketLines_nodup l₂ hn₂, hc]
   unfold sortRecs
   rw [sortBy_perm_eq (·.name) hp hn]
+
+/-! ### T-fact ties: nothing but the fileset's logical content can reach the hash
+
+`Rio.Generated.*` is regenerated from the Go source on every run. -/
+
+/-- The packages on the pack path keep no mutable package-level state: every package-level variable is
+    one of these (function values, the process's ids read once at start-up, constants), and no function
+    assigns to any of them or calls a method on them.  A shared buffer, hasher or cache introduced at
+    package level — which concurrent packs would race on — changes this table. -/
+theorem C01_no_shared_state : Generated.pkgVars = [
+    ("transmat/tar", "Mirror", []), ("transmat/tar", "Scan", []), ("transmat/tar", "Unpack", []),
+    ("transmat/zip", "Mirror", []), ("transmat/zip", "Scan", []), ("transmat/zip", "Unpack", []),
+    ("transmat/mixins/filters", "myGid", []), ("transmat/mixins/filters", "myUid", []),
+    ("fs", "DefaultTime", []), ("fsOp", "myGid", []), ("fsOp", "myUid", []),
+    ("lib/treewalk", "SkipNode", [])] := by decide
+
+/-- the hashing and packing functions read no clock, time zone, environment variable, working directory
+    or random source -/
+theorem C01_no_env_reads : Generated.packEnvReads = [] := by decide
+
+/-- the host metadata that can reach a record: mode, size, mtime, uid, gid, rdev — no atime, ctime, inode
+    number, link count or block count -/
+theorem C01_stat_reads : ∀ a ∈ Generated.convertFileinfoReads,
+    a ∈ ["fi.ModTime", "fi.Mode", "fi.Size", "fi.Sys", "fm.Perm", "sys.Gid", "sys.Rdev", "sys.Uid"] := by decide
+
+/-- the serializer reads only fields of `fs.Metadata` that are part of the logical fileset (`Size` is
+    deliberately not hashed), and `fs.Metadata` has no other fields -/
+theorem C01_hashed_fields :
+    Generated.marshalReads = ["Devmajor", "Devminor", "Gid", "Linkname", "Mtime", "Name", "Perms", "Type", "Uid", "Xattrs"] ∧
+    Generated.metadataFields = ["Name", "Type", "Perms", "Uid", "Gid", "Size", "Linkname", "Devmajor", "Devminor", "Mtime", "Xattrs"] := by
+  decide
+
+/-- the key order of the serial form is the one the model's `serMeta` uses -/
+theorem C01_marshal_keys : Generated.marshalKeys = ["n", "t", "p", "u", "g", "l", "dM", "dm", "m", "mn", "x"] := by decide
 
 private def exA : Record := mkRecord (defaultDirMeta ⟨[], 0⟩) []
 private def exB : Record := mkRecord { defaultDirMeta ⟨[0x61], -1⟩ with kind := .file } [1, 2]
